@@ -711,6 +711,18 @@ func checkHighestCommon(c *Ctx, rule string, hf *ssa.Function) {
 			if !returned {
 				continue
 			}
+			// builtin form: carried = max(carried, element)
+			for _, e := range ph.Edges {
+				mc, ok := core.Unwrap(e).(*ssa.Call)
+				if !ok || core.CalleeID(mc) != "builtin.max" || len(mc.Call.Args) != 2 {
+					continue
+				}
+				a0, a1 := mc.Call.Args[0], mc.Call.Args[1]
+				carried := map[ssa.Value]bool{ph: true}
+				if (core.FlowsFrom(a0, carried) && !core.FlowsFrom(a1, carried)) || (core.FlowsFrom(a1, carried) && !core.FlowsFrom(a0, carried)) {
+					okMax = true
+				}
+			}
 			for _, b2 := range hf.Blocks {
 				for i := range b2.Succs {
 					for _, f := range core.EdgeFacts(b2, i) {
